@@ -266,4 +266,107 @@ theorem keepsTail_of_lodCount (m : AbstractModel) (h : WF m = true) (hcan : Cano
   unfold declaredEnd
   omega
 
+theorem getElem?_lods_redundant (ρ : Redundant) (L : List MeshLod) :
+    ∀ (j i : Nat), (ρ.lods j L)[i]? = L[i]?.map (ρ.lod (j + i)) := by
+  induction L with
+  | nil => intro j i; simp [Redundant.lods]
+  | cons x xs ih =>
+    intro j i
+    cases i with
+    | zero => simp [Redundant.lods]
+    | succ i =>
+      simp only [Redundant.lods, List.getElem?_cons_succ, ih (j + 1) i]
+      rw [show j + 1 + i = j + (i + 1) by omega]
+
+/-! ### 4. without `keepsTail`: the re-parse cannot return anything else -/
+
+/-- the stage after the header parses is monotone in the file: every read at or after `P` that
+succeeds in `f1` gives the same bytes in `f2`, all sections of the LODs in use start at or after `P` -/
+theorem afterHeaders_le {P : Nat} {f1 f2 : Array UInt8} (hr : ReadsLe P f1 f2) (fh : FileHeader)
+    (md : ModelData)
+    (hv : ∀ i lod, i < md.header.lodCount.toNat → md.lods[i]? = some lod →
+      P ≤ lod.vertexDataOffset.toNat)
+    (hio : ∀ i o, i < md.header.lodCount.toNat → fh.indexOffsets.get? i = some o → P ≤ o.toNat) :
+    LeR (afterHeaders f1 fh md) (afterHeaders f2 fh md) := by
+  unfold afterHeaders
+  refine LeR.bind (LeR.refl _) (fun _ _ => LeR.bind (LeR.refl _) (fun _ _ =>
+    LeR.bind ?_ (fun _ _ => LeR.refl _)))
+  refine LeR.mapM _ (fun i hi => ?_)
+  have hi' := List.mem_range.mp hi
+  exact readLod_le hr fh fh md md.lods i rfl rfl (fun lod h => hv i lod hi' h)
+    (fun o h => hio i o hi' h)
+
+/-- **for every `ρ`**: the model parsed from `encodeMdlR m ρ` is written to a buffer whose re-parse,
+if it returns at all, returns that very model — the stale copies cannot make the reader report
+anything else.  (Under `keepsTail` the re-parse does return: `write_redundant`.  Otherwise the buffer
+lacks trailing zero index padding of the file, and what is missing here is that no read reaches it.) -/
+theorem write_redundant_reparse (m : AbstractModel) (h : WF m = true) (hcan : Canonical m = true)
+    (ρ : Redundant) (v : View) (hv : view m = some v) :
+    ∃ buf, writeToBuffer (parsedR m ρ v) = .ok buf ∧
+      ∀ m1, fromExisting buf = .ok m1 → m1 = parsedR m ρ v := by
+  obtain ⟨t, k1, hsec, hw⟩ := writeToBuffer_redundant m h hcan ρ v hv
+  generalize max (dataStart m + t.length) (declaredEnd (ρ.fh (fileHeader m))) -
+    (dataStart m + t.length) = z at hw
+  have hnw := canonical_noWeightsByte4 m hcan
+  have hR : encodeMdlR m ρ = (encFileHeader (ρ.fh (fileHeader m)) ++
+      encModelData m.version (ρ.md (modelData m))) ++ (t ++ zeros k1) := by
+    rw [encodeMdlR, hsec, List.append_assoc]
+  refine ⟨_, hw, fun m1 h1 => ?_⟩
+  by_cases hz : k1 ≤ z
+  · -- the buffer is the file followed by zeros
+    have e : (encFileHeader (ρ.fh (fileHeader m)) ++ encModelData m.version (ρ.md (modelData m))) ++
+        (t ++ zeros z) = encodeMdlR m ρ ++ zeros (z - k1) := by
+      rw [hR, show zeros z = zeros k1 ++ zeros (z - k1) by rw [zeros_append]; congr 1; omega]
+      simp only [List.append_assoc]
+    rw [e, parse_encodeR_append m h hnw ρ v hv] at h1
+    injection h1 with h1; exact h1.symm
+  · -- the file is the buffer followed by zeros
+    have hok2 : modelDataOk (ρ.fh (fileHeader m)) (ρ.md (modelData m)) = true := by
+      rw [modelDataOk_redundant]; exact wf_modelDataOk m h
+    have hY : zeros k1 = zeros z ++ zeros (k1 - z) := by rw [zeros_append]; congr 1; omega
+    -- both files: header stage
+    have hfhB : parseFileHeader ((encFileHeader (ρ.fh (fileHeader m)) ++
+        encModelData m.version (ρ.md (modelData m))) ++ (t ++ zeros z)) =
+        .ok (ρ.fh (fileHeader m), encModelData (ρ.fh (fileHeader m)).version (ρ.md (modelData m)) ++
+          (t ++ zeros z)) := by
+      rw [List.append_assoc]; exact parseFileHeader_enc _ _
+    have hfhF : parseFileHeader ((encFileHeader (ρ.fh (fileHeader m)) ++
+        encModelData m.version (ρ.md (modelData m))) ++ ((t ++ zeros z) ++ zeros (k1 - z))) =
+        .ok (ρ.fh (fileHeader m), encModelData (ρ.fh (fileHeader m)).version (ρ.md (modelData m)) ++
+          ((t ++ zeros z) ++ zeros (k1 - z))) := by
+      rw [List.append_assoc]; exact parseFileHeader_enc _ _
+    have hF : encodeMdlR m ρ = (encFileHeader (ρ.fh (fileHeader m)) ++
+        encModelData m.version (ρ.md (modelData m))) ++ ((t ++ zeros z) ++ zeros (k1 - z)) := by
+      rw [hR, hY]; simp only [List.append_assoc]
+    have hpF := parse_encodeR m h hnw ρ v hv
+    rw [hF, fromExisting_of_headers hfhF (parseModelData_enc _ _ hok2 _)] at hpF
+    rw [fromExisting_of_headers hfhB (parseModelData_enc _ _ hok2 _)] at h1
+    have hRL := readsLe_append (encFileHeader (ρ.fh (fileHeader m)) ++
+      encModelData m.version (ρ.md (modelData m))) (encFileHeader (ρ.fh (fileHeader m)) ++
+      encModelData m.version (ρ.md (modelData m))) (t ++ zeros z) (zeros (k1 - z)) rfl
+    rw [length_headersR] at hRL
+    have hle := afterHeaders_le hRL (ρ.fh (fileHeader m)) (ρ.md (modelData m))
+      (fun i lod hi hlod => by
+        have hi' : i < m.lodCount.toNat := hi
+        have hg := getElem?_lods_redundant ρ (modelData m).lods 0 i
+        rw [show (ρ.md (modelData m)).lods = ρ.lods 0 (modelData m).lods from rfl, hg] at hlod
+        cases h0 : (modelData m).lods[i]? with
+        | none => rw [h0] at hlod; cases hlod
+        | some lod0 =>
+          rw [h0] at hlod
+          simp only [Option.map_some, Option.some.injEq] at hlod
+          subst hlod
+          exact (used_positions m h i hi').1 lod0 h0)
+      (fun i o hi ho => (used_positions m h i hi).2 o ho)
+    cases hA : afterHeaders ((encFileHeader (ρ.fh (fileHeader m)) ++
+        encModelData m.version (ρ.md (modelData m))) ++ (t ++ zeros z)).toArray
+        (ρ.fh (fileHeader m)) (ρ.md (modelData m)) with
+    | error e => rw [hA] at h1; cases h1
+    | ok v1 =>
+      rw [hA] at h1
+      rw [hle v1 hA] at hpF
+      injection h1 with h1
+      injection hpF with hpF
+      rw [← h1]; exact hpF
+
 end Physis.Mdl
